@@ -16,10 +16,15 @@ EXPLANATION = (
     "comparison self.F == other.F - never a constant True; (4) coverage: every class implementing an "
     "IFilesystemNode-family interface and every class of allmydata.uri with to_string() resolves __eq__ and "
     "__hash__ inside the package, node classes compare every field of self that get_uri() reads, capability "
-    "classes compare self.to_string(). "
+    "classes compare self.to_string(); (5) reflexivity / direction of the type guard: on every path of __eq__ that is "
+    "feasible when the operand is the object itself (isinstance(other, K) evaluated against the MRO of every class "
+    "using that __eq__, type(other) == type(self), other is self, other is None) the result is a comparison, never "
+    "False / NotImplemented / None; a returned comparison that reads other.F lies on a path that took an isinstance / "
+    "type-equality test positively (or inside a try); the operand never stands in the class position of isinstance. "
     "Undecided: the values of the compared fields (that self.u really is the cap the node was made from), "
-    "equality across different node classes for one cap, zope-interface adaptation.")
-TECHNIQUE = "static analysis: CFG path enumeration of __eq__/__ne__/__hash__ with normalised branch facts, MRO pairing, field-set inclusion"
+    "equality across different node classes for one cap, zope-interface adaptation, tests of __eq__ other than "
+    "isinstance / type equality / identity / None (paths through them are not judged for reflexivity).")
+TECHNIQUE = "static analysis: CFG path enumeration of __eq__/__ne__/__hash__ with normalised branch facts, MRO pairing, field-set inclusion, abstract evaluation of the type guard for other=self"
 
 NODE_IFACE_ROOT = "IFilesystemNode"
 _NEG = {"==": "!=", "!=": "==", "is": "is not", "is not": "is", "in": "not in", "not in": "in",
@@ -57,6 +62,7 @@ def paths(fn, rename):
     """[(facts frozenset, return expr AST or None, return node)] for every path entry -> normal exit."""
     cfg = fn.cfg()
     nrm = N(fn, rename=rename)
+    flow = FlowNorm(fn)
     out = []
     seen = set()
 
@@ -70,6 +76,8 @@ def paths(fn, rename):
             st = st | frozenset([f])
         if nxt.kind == "exit":
             v = n.ast.value if is_return(n) else None
+            if v is not None:
+                v = flow.resolve(n, v)       # `rv = E; return rv` is `return E`
             key = (st, n.id)
             if key not in seen:
                 seen.add(key)
@@ -141,7 +149,7 @@ def eq_profile(fn):
     for n in fn.cfg().nodes:
         if n.kind == "test":
             f = nrm.cmp(canon(n.ast), True)
-            if f[0] in ("==", "!=") and {f[1], f[2]} == {"$o.__class__", "self.__class__"}:
+            if f[0] in ("==", "!=", "is", "is not") and {f[1], f[2]} == {"$o.__class__", "self.__class__"}:
                 type_eq = True
     flow = FlowNorm(fn)
     for (_f, v, n) in ps:
@@ -180,6 +188,72 @@ def symmetric(fn, v):
         if sw.norm(l) != sw.norm(r):
             return False
     return True
+
+
+_NOT_A_NODE = {"str", "bytes", "bytearray", "int", "float", "bool", "complex", "dict", "list", "tuple", "set",
+               "frozenset", "type", "NoneType"}
+
+
+def mentions(e, name):
+    return any(isinstance(x, ast.Name) and x.id == name for x in ast.walk(e))
+
+
+def reads_operand_field(e, o):
+    """the expression reads an attribute of the operand: `other.F` / `other.meth()`"""
+    return any(isinstance(x, ast.Attribute) and isinstance(x.value, ast.Name) and x.value.id == o
+               for x in ast.walk(e))
+
+
+def reflexive_test(idx, fn, ci, o, test):
+    """Value of one atomic test of fn when the operand `o` IS self, an instance of class ci.
+
+    Returns (value, typed): value True / False / None (not decided statically); typed is True when the test,
+    taken with the value True, establishes the operand's type (isinstance(o, K)  or  type(o) == type(self))
+    and False when it establishes it with the value False (type(o) != type(self)); None otherwise."""
+    t = canon(test)
+    neg = False
+    while isinstance(t, ast.UnaryOp) and isinstance(t.op, ast.Not):
+        t, neg = t.operand, not neg
+
+    def out(val, typed=None):
+        if neg:
+            val = None if val is None else not val
+            typed = None if typed is None else not typed
+        return val, typed
+
+    if isinstance(t, ast.Call) and isinstance(t.func, ast.Name) and t.func.id == "isinstance" \
+            and len(t.args) == 2 and not t.keywords:
+        a, k = t.args
+        if not (isinstance(a, ast.Name) and a.id in (o, "self")):
+            return out(None)
+        vals = []
+        for kk in (k.elts if isinstance(k, ast.Tuple) else [k]):
+            c = idx.resolve_expr(fn.module, kk)
+            if isinstance(c, ClassInfo):
+                vals.append(c in ci.mro())
+            elif isinstance(kk, ast.Name) and kk.id == "object":
+                vals.append(True)
+            elif isinstance(kk, ast.Name) and kk.id in _NOT_A_NODE and kk.id not in fn.module.assigns:
+                vals.append(False)
+            else:
+                vals.append(None)
+        val = True if any(v is True for v in vals) else (False if all(v is False for v in vals) else None)
+        return out(val, True if a.id == o else None)
+    if isinstance(t, ast.Compare) and len(t.ops) == 1 and isinstance(t.ops[0], (ast.Eq, ast.NotEq, ast.Is, ast.IsNot)):
+        eqlike = isinstance(t.ops[0], (ast.Eq, ast.Is))
+        l, r = t.left, t.comparators[0]
+        plain = N(fn, rename={o: "$o"})
+        typed = None
+        if {plain.norm(l), plain.norm(r)} == {"$o.__class__", "self.__class__"}:
+            typed = eqlike
+        sw = N(fn, rename={o: "self"})
+        if sw.norm(l) == sw.norm(r):
+            return out(eqlike, typed)
+        for x, y in ((l, r), (r, l)):
+            if isinstance(x, ast.Name) and x.id in (o, "self") and isinstance(y, ast.Constant) and y.value is None:
+                return out(not eqlike)
+        return out(None, typed)
+    return out(None)
 
 
 def defined_in_body(ci, name):
@@ -353,3 +427,71 @@ def run(ctx: Context):
                 missing = used - terms
                 r.require(bool(used) and not missing, ci.qual, loc, "node class %s: get_uri() reads %s but %s compares %s"
                           % (ci.name, sorted(used), short(eq), sorted(terms)))
+
+    # -- 5. the type guard of __eq__ points the right way ----------------------
+    with ctx.rule("C43.5", "R6", "x == x is True: on every path of __eq__ that is feasible when the operand is the "
+                  "object itself (isinstance(other, K) with K in the MRO, type(other) == type(self)) the result is a "
+                  "comparison, never False; a comparison that reads other.F is guarded by a positive type test; the "
+                  "operand never stands in the class position of isinstance", expected=5) as r:
+        for ci in definers:
+            if "__eq__" not in ci.methods:
+                continue
+            eq = ci.methods["__eq__"]
+            r.site(eq, None, "reflexivity")
+            o = other_param(eq)
+            cfg = eq.cfg()
+            flow = FlowNorm(eq)
+            for c in func_own_nodes(eq):
+                if isinstance(c, ast.Call) and isinstance(c.func, ast.Name) and c.func.id in ("isinstance", "issubclass") \
+                        and len(c.args) == 2 and mentions(c.args[1], o):
+                    r.violation(eq, eq.loc(c), "%s tests `%s`: the operand stands in the class position, which raises "
+                                "TypeError for every node / cap operand" % (short(eq), src(eq, c)))
+            users = sorted((c for c in idx.classes.values() if c.lookup("__eq__") is eq), key=lambda c: c.qual)
+            reported = set()
+            for uc in users:
+                ends = []
+
+                def transfer(n, lab, nxt, st, uc=uc, ends=ends):
+                    if lab == "exc" or nxt.kind == "raise":
+                        return None
+                    unknown, typed = st
+                    if n.kind == "test" and isinstance(lab, tuple):
+                        holds = lab[0] == "T"
+                        val, ty = reflexive_test(idx, eq, uc, o, n.ast)
+                        if val is None:
+                            unknown = True
+                        elif val != holds:
+                            return None
+                        if ty is not None and ty == holds:
+                            typed = True
+                    if nxt.kind == "exit":
+                        v = n.ast.value if is_return(n) else None
+                        if v is not None:
+                            v = flow.resolve(n, v)
+                        ends.append((n, v, st, (unknown, typed)))
+                    return (unknown, typed)
+                visited, parent = explore(cfg, (False, False), transfer)
+                r.count(len(visited))
+                some_cmp = False
+                for (n, v, st_in, (unknown, typed)) in ends:
+                    negative = v is None or is_const(v, False, None) or is_notimpl(v)
+                    if not negative:
+                        some_cmp = True
+                        guarded = typed or any(lab == "exc" for (_d, lab) in cfg.succ[n.id])
+                        if not is_const(v, True) and reads_operand_field(v, o) and not guarded \
+                                and (n.id, "unguarded") not in reported:
+                            reported.add((n.id, "unguarded"))
+                            r.violation(eq, eq.loc(n.ast), "%s returns `%s` on a path that never established the type of "
+                                        "`%s` (no isinstance / type equality taken positively): comparing with an object "
+                                        "of another node / cap class raises AttributeError or compares unrelated fields"
+                                        % (short(eq), src(eq, v), o), witness(cfg, parent, (n.id, st_in)))
+                    elif not unknown and (n.id, "reflexive") not in reported:
+                        reported.add((n.id, "reflexive"))
+                        r.violation(eq, eq.loc(n.ast), "%s returns %s when the operand is the %s object itself: the type "
+                                    "guard points the wrong way, objects with equal capability strings compare unequal"
+                                    % (short(eq), src(eq, v) if v is not None else "None", uc.name),
+                                    witness(cfg, parent, (n.id, st_in)))
+                if not some_cmp and (None, uc.qual) not in reported and not any(k[1] == "reflexive" for k in reported):
+                    reported.add((None, uc.qual))
+                    r.violation(eq, eq.loc(), "%s has no path that returns a comparison when the operand is the %s object "
+                                "itself" % (short(eq), uc.name))
